@@ -201,7 +201,13 @@ func (im *impl) checkAPI(snap *te.VerifSnap, step int, tags string, out *[]findi
 		}
 		step7 := step*7 + 3
 		ranges := [][2]int{{1, w - 1}, {0, w - 1}, {1, w - 2}, {step7 % w, 1 + (step7/3)%(w-step7%w)}}
+		// three rows per step (the cursor row and two that rotate): every row is visited often
+		// enough, and big screens stay cheap
+		rowsToCheck := map[int]bool{s.CY: true, step % h: true, (step*7 + 1) % h: true}
 		for y := 0; y < h; y++ {
+			if !rowsToCheck[y] {
+				continue
+			}
 			full := cellsOfVerif(s.Rows[y].Cells)
 			if len(full) != w {
 				continue
